@@ -612,7 +612,8 @@ func genBaseConfig(g *gen) *cDesc {
 	}
 	nprof := g.intn(3)
 	for i := 0; i < nprof; i++ {
-		p := cProfile{Name: "prof" + strconv.Itoa(i)}
+		// viper folds the case of keys: a profile may be named and referred to in any case
+		p := cProfile{Name: g.pickS("prof", "prof", "Prof", "PROD-East-") + strconv.Itoa(i)}
 		if g.chance(1, 2) {
 			p.Version = strp(g.pickS("2.0.0", "0.10.2", "0.11.0.2", "3.6.1", ""))
 		}
@@ -628,7 +629,14 @@ func genBaseConfig(g *gen) *cDesc {
 		if nprof == 0 || g.chance(1, 3) {
 			return ""
 		}
-		return d.Profiles[g.intn(nprof)].Name
+		nm := d.Profiles[g.intn(nprof)].Name
+		switch g.intn(6) {
+		case 0:
+			return strings.ToUpper(nm)
+		case 1:
+			return strings.ToLower(nm)
+		}
+		return nm
 	}
 	ncl := g.intn(3)
 	for i := 0; i < ncl; i++ {
